@@ -194,7 +194,16 @@ type Plugin struct {
 }
 
 func (p *Plugin) Name() string             { return p.PName }
-func (p *Plugin) ValidateReq(req any) error { return nil }
+func (p *Plugin) ValidateReq(req any) error {
+	r, ok := req.(Req)
+	if !ok {
+		return fmt.Errorf("request has the wrong type")
+	}
+	if r.N < 0 {
+		return fmt.Errorf("request rejected")
+	}
+	return nil
+}
 func (p *Plugin) Request() any              { return Req{} }
 func (p *Plugin) Response() any             { return Resp{} }
 func (p *Plugin) IsCheck() bool             { return p.Check }
